@@ -67,6 +67,44 @@ def fill(a, c):
         a[...] = c
 
 
+def flat(a):
+    """one flat float vector for an array or a dict of arrays (sorted keys)"""
+    if isinstance(a, dict):
+        return np.concatenate([np.asarray(a[k]).ravel() for k in sorted(a, key=str)]) if a else np.zeros(0)
+    return np.asarray(a).ravel()
+
+
+def parts(a):
+    """an array as the model sees it: two cells = (first element, all the others)"""
+    if a is None:
+        return {"sha": ["absent", "absent"], "zero": [False, False]}
+    f = flat(a)
+    return {"sha": [sha(f[:1]), sha(f[1:])], "zero": [bool(not np.any(f[:1])), bool(not np.any(f[1:]))]}
+
+
+def fill_part(a, i, c):
+    """partial in-place write by the user: cell 0 = the first element (arr.flat[0] = c), cell 1 = the slice of
+    all the others (arr.flat[1:] = c)"""
+    if a is None:
+        return
+    arrs = [a[k] for k in sorted(a, key=str)] if isinstance(a, dict) else [a]
+    first = True
+    for v in arrs:
+        if v.size == 0:
+            continue
+        fl = v.reshape(-1) if v.flags["C_CONTIGUOUS"] else None
+        if fl is None:
+            raise ValueError("non-contiguous array handed out")
+        if first:
+            if i == 0:
+                fl[0] = c
+            else:
+                fl[1:] = c
+            first = False
+        elif i == 1:
+            fl[:] = c
+
+
 def filled_like(a, c):
     b = deep(a)
     fill(b, c)
@@ -138,6 +176,7 @@ class Adapter:
     can_setmesh = True
     can_saveload = True
 
+    hyperbolic = False
     algo = None       # time algorithm of this case (name of an AlgoType member), None = the adapter's default
     alpha = None
     time_dependent = False
@@ -216,6 +255,7 @@ class ElasticStatic(Adapter):
 
 class ElasticDyn(ElasticStatic):
     name = "Elastic_newmark"
+    hyperbolic = True
     keys = ["displacement", "speed", "accel"]
     results = ["displacement", "speed", "accel"]
 
@@ -297,6 +337,25 @@ class Beam(Adapter):
         simu.add_neumann(nL, [-1.0 * (n + 1)], ["y"])
 
 
+class BeamDyn(Beam):
+    """Beam under the hyperbolic algorithms (Construct_local_matrix_system provides the mass matrix)"""
+    name = "Beam_newmark"
+    keys = ["displacement", "speed", "accel"]
+    results = ["displacement", None, None]
+    time_dependent = True
+    hyperbolic = True
+
+    def build(self, folder):
+        simu = super().build(folder)
+        simu.rho = 7.8e-3
+        self.set_hyperbolic(simu, 1e-3, 1e-6)
+        return simu
+
+    def live(self, simu):
+        pt = simu.problemType
+        return [simu._Get_u_n(pt), simu._Get_v_n(pt), simu._Get_a_n(pt)]
+
+
 class PhaseField(Adapter):
     name = "PhaseField"
     keys = ["damage", "displacement"]
@@ -339,6 +398,7 @@ class HyperElastic(Adapter):
 
 class HyperElasticDyn(HyperElastic):
     name = "HyperElastic_newmark"
+    hyperbolic = True
     keys = ["displacement", "speed", "accel"]
     results = ["displacement", "speed", "accel"]
 
@@ -411,7 +471,58 @@ class WeakFormsStatic(Adapter):
         simu.add_dirichlet(nL, [1.0 * (n + 1)], ["u"])
 
 
-ADAPTERS = {a.name: a for a in (ElasticStatic, ElasticDyn, ThermalStatic, ThermalParabolic, Beam, PhaseField,
+class WeakFormsParabolic(WeakFormsStatic):
+    """K = grad u . grad v, C = u v, parabolic scheme"""
+    name = "WeakForms_parabolic"
+    keys = ["u", "v"]
+    results = ["u", None]
+    time_dependent = True
+    forms = ("C",)
+
+    def build(self, folder):
+        from EasyFEA.FEM import Field, BiLinearForm
+        mesh = self.new_mesh()
+        field = Field(mesh.groupElem, 1)
+
+        @BiLinearForm
+        def computeK(u, v):
+            return u.grad.dot(v.grad)
+
+        @BiLinearForm
+        def computeUV(u, v):
+            return u.dot(v)
+
+        wf = Models.WeakForms(field, computeK, computeUV if "C" in self.forms else None, computeUV if "M" in self.forms else None)
+        simu = Simulations.WeakForms(mesh, wf, folder=folder, verbosity=False)
+        self.set_time(simu)
+        return simu
+
+    def set_time(self, simu):
+        simu.Solver_Set_Parabolic_Algorithm(dt=0.1, **({"alpha": self.alpha} if self.alpha is not None else {}))
+
+    def live(self, simu):
+        return [simu.u, simu.v, simu.a][: len(self.keys)]
+
+
+class WeakFormsDyn(WeakFormsParabolic):
+    """K = grad u . grad v, M = u v, every hyperbolic scheme"""
+    name = "WeakForms_newmark"
+    keys = ["u", "v", "a"]
+    results = ["u", None, None]
+    hyperbolic = True
+    forms = ("M",)
+
+    def set_time(self, simu):
+        self.set_hyperbolic(simu, 0.05, 1e-3)
+
+    def bc(self, simu, n):
+        # a load (not a prescribed value) so that every scheme, the explicit one included, moves
+        n0, nL = _edges(simu)
+        simu.add_dirichlet(n0, [0], ["u"])
+        simu.add_neumann(nL, [1.0 * (n + 1)], ["u"])
+
+
+ADAPTERS = {a.name: a for a in (BeamDyn, WeakFormsParabolic, WeakFormsDyn, ElasticStatic, ElasticDyn, ThermalStatic, ThermalParabolic, Beam, PhaseField,
                                 HyperElastic, HyperElasticDyn, InElastic, WeakFormsStatic)}
 
 
@@ -544,13 +655,13 @@ class Run:
                         sc = max(float(np.max(np.abs(ref))), 1e-300)
                     if d > 1e-9 * sc + 1e-13:
                         self.fail("continuation-differs", n, {"field": ad.keys[k], "max_abs_diff": d, "scale": sc})
-                    self.reg.setdefault(str(t), []).append(sha(a))   # a replay may differ in the last bits
+                    self.reg.setdefault(str(t), []).append(parts(a)["sha"])   # a replay may differ in the last bits
             else:
                 ad.solve(s, (self.nsolve + self.load_shift) % 7)
                 self.load_of[toks[0]] = (self.nsolve + self.load_shift) % 7
                 self.nsolve += 1
                 for t, a in zip(toks, ad.live(s)):
-                    self.reg[str(t)] = [sha(a)]
+                    self.reg[str(t)] = [parts(a)["sha"]]
                     self.reg_arr[t] = deep(a)
             self.check_store_vs_ghost(n, "Solve")
         elif name == "SaveIter":
@@ -624,15 +735,19 @@ class Run:
             g = self.ghost[i]
             if rname is not None and sha(v) != sha(g[3][k]):
                 self.fail("result-value", n, {"iter": i, "result": rname, "entry_corrupted_by": self.corrupt.get(i)})
-        elif name == "WriteRet":
-            k, tok = op[1], op[2]
-            if k < len(self.handed):
+        elif name in ("WriteRet", "WriteRetAt"):
+            k = op[1]
+            tok = op[-1]
+            if k < len(self.handed) and self.handed[k] is not None:
                 c = 1000.0 + tok
-                self.reg[str(tok)] = [sha(filled_like(self.handed[k], c))]
+                self.reg[str(tok)] = [parts(filled_like(self.handed[k], c))["sha"]]
                 livebefore = [sha(x) for x in ad.live(s)]
-                fill(self.handed[k], c)
+                if name == "WriteRet":
+                    fill(self.handed[k], c)            # whole array
+                else:
+                    fill_part(self.handed[k], op[2], c)  # one element / a slice
                 self.wrote.append(self.handed_src)
-                self.events.append([n, "write", self.handed_src, k])
+                self.events.append([n, "write" if name == "WriteRet" else "partial-write", self.handed_src, k])
                 if [sha(x) for x in ad.live(s)] != livebefore:
                     self.events.append([n, "write-reached-live", self.handed_src, k])
                 self.check_store_vs_ghost(n, "WriteRet:" + str(self.handed_src))
@@ -684,6 +799,14 @@ class Run:
         if err is None:
             with contextlib.redirect_stdout(io.StringIO()):
                 o = self.obs()
+                o["live_parts"] = [parts(x) for x in self.ad.live(self.simu)]
+                o["store_parts"] = []
+                for i in range(self.simu.Niter):
+                    try:
+                        e = raw_entry(self.simu, i)
+                        o["store_parts"].append([int(e["indexMesh"])] + [parts(x) for x in self.ad.entry_fields(e)])
+                    except Exception as ex:
+                        o["store_parts"].append(["ERR", type(ex).__name__])
                 o["live_zero"] = [bool(iszero(x)) for x in self.ad.live(self.simu)]
                 o["store_zero"] = []
                 for i in range(self.simu.Niter):
@@ -882,9 +1005,10 @@ def main():
         # which time algorithms does each time-dependent configuration accept (asked to the implementation)
         hyp = [a.value for a in AlgoType.Get_Hyperbolic_Types()]
         sup = {}
+        rejected = {}
         with contextlib.redirect_stdout(io.StringIO()):
             for name, cls in ADAPTERS.items():
-                if not cls.time_dependent or name == "Thermal_parabolic":
+                if not cls.hyperbolic:
                     continue
                 sup[name] = []
                 for a in hyp:
@@ -893,9 +1017,9 @@ def main():
                     try:
                         ad.build("")
                         sup[name].append(a)
-                    except AssertionError:
-                        pass
-        sys.stdout.write(json.dumps({"hyperbolic": hyp, "all": [a.value for a in AlgoType], "supported": sup}))
+                    except AssertionError as ex:
+                        rejected.setdefault(name, {})[a] = str(ex)[:200]
+        sys.stdout.write(json.dumps({"hyperbolic": hyp, "all": [a.value for a in AlgoType], "supported": sup, "rejected": rejected}))
         return
     root = req["root"]
     assert "/build/C15" in root
